@@ -146,6 +146,55 @@ func runC06(r *Run) {
 		r.atLeast("string/bytes accessors", n, 30)
 	})
 
+	r.rule("R4", "text kept in the context between accessor calls is a copy: a string / byte-slice field of DefaultCtx is only ever assigned a copied value, except the routing buffers declared ephemeral (path, detectionPath, values), whose readers R1 checks (E3, field-based)", func() {
+		cfg := immutableCfg()
+		declared := cfg.fieldSource
+		isText := map[string]bool{}
+		typePos := ""
+		if tm, ok := r.P.Pkg("").Members["DefaultCtx"].(*ssa.Type); ok {
+			typePos = r.P.Pos(tm.Pos())
+			if st, ok := tm.Type().Underlying().(*types.Struct); ok {
+				for i := 0; i < st.NumFields(); i++ {
+					if isBytesOrString(st.Field(i).Type()) {
+						isText["DefaultCtx."+st.Field(i).Name()] = true
+					}
+				}
+			}
+		}
+		r.need(len(isText) >= 3, "DefaultCtx has text fields")
+		cfg.trackField = func(name string) bool { return isText[name] && !declared(name) }
+		te := newTaint(r.P, cfg)
+		var ms []*ssa.Function
+		r.P.AllFuncs("", func(f *ssa.Function) {
+			if f.Signature.Recv() != nil && strings.HasSuffix(f.Signature.Recv().Type().String(), "fiber/v3.DefaultCtx") {
+				ms = append(ms, f)
+			}
+		})
+		r.need(len(ms) >= 50, "methods of DefaultCtx")
+		for round := 0; round < 6; round++ {
+			te.changed = false
+			te.memo = map[string]*fnSummary{}
+			for _, m := range ms {
+				te.analyze(m, make([]bool, len(m.Params)), nil, "")
+			}
+			if !te.changed {
+				break
+			}
+		}
+		var names []string
+		for n := range isText {
+			names = append(names, n)
+		}
+		sort.Strings(names)
+		for _, n := range names {
+			if declared(n) {
+				continue
+			}
+			r.check(!te.fields[n], "field:"+n, typePos, "only copied (or constant) text is stored", n+" can be assigned a view of request memory even with Immutable: what an accessor hands out from it (for pathOriginal: c.Route().Path of an unmatched request, OriginalURL-derived values) changes when the buffers are reused")
+		}
+		r.count("methods of DefaultCtx analysed", len(ms))
+	})
+
 	r.rule("R2", "strings handed by the binders to the decoder / user maps are copies (E3)", func() {
 		cfg := immutableCfg()
 		cfg.pruneField = ""
